@@ -2,26 +2,26 @@
 """(re)generate /verif/MANIFEST.json from the table below; run tools/validate.py afterwards"""
 import json
 props=[json.loads(l) for l in open('/verif/properties.jsonl')]
-GEN="generated-input search (proptest-driven choice tape, shrinking, replay files)"
+GEN="generated-input search (proptest-driven choice tape, shrinking, replay files; thorough tier adds a coverage-guided libFuzzer stage mutating the same tape under the same oracle)"
 claimed={
  "C01":("every per-step power balance, every cumulative energy balance, every energy_*==own integral of pwr_*, SOC==soc0-chemical/capacity and consist totals==sums are re-computed from public state after every accepted step of generated adversarial histories (units and consists)", GEN+" vs algebraic ledger oracle"),
  "C02":("bound check against a brute-force pointwise-minimum model of all posted restrictions over generated restriction geometries and extend partitions", GEN+" vs brute-force reference model"),
  "C08":("per-step second-law invariants (loss>=0, eta in (0,1], |out|<=|in| per direction, monotone cumulative energies, dyn-brake only under braking, engine-off => zero fuel/aux) over generated histories incl. engine-off patterns", GEN+" vs invariant over the history"),
  "C09":("accepted => within: adversary reads the limits just published and requests at/below/above them; every accepted step is compared with ratings, published transient/SOC limits and the ramp-rate bound", GEN+" (stateful adversary) vs limit monitor"),
  "C10":("after every accepted consist step: conservation of demand, per-unit capability, sign agreement, regen placement and the battery-first rule, over generated consists/policies/histories", GEN+" vs validity predicate on the split"),
- "C03":("every saved step of generated speed-limited runs (whole path and link-by-link extension) is compared with an independently computed posted limit, the limit in force, monotone position and the stopping window; unwinds are violations; termination of walk() on a stalled train is probed in a child process", GEN+" vs independent posted-limit model + invariants over the history"),
+ "C03":("every saved step of generated speed-limited runs (whole path, link-by-link extension, and walk_timed_path over the dispatcher's own timed paths of generated corridor scenarios) is compared with an independently computed posted limit, the limit in force, monotone position and the stopping window; unwinds are violations; termination of walk() on a stalled train is probed in a child process", GEN+" vs independent posted-limit model + invariants over the history"),
  "C04":("every dispatcher snapshot (verif_hooks observer) and the final plan of generated corridor scenarios are checked for overlapping occupancy of a physical segment by opposing trains, of mutually exclusive segments, order changes inside a segment and the configured headway; plus a black-box check on the returned timed paths", GEN+" vs interval-overlap reference model over hook snapshots and final plan"),
  "C05":("returned plans are validated (one route per train, origin/departure/destination, contiguity, monotone times, never faster than free-running), errors must name trains, any unwind or abort (incl. debug assertions and std unsafe-precondition checks) is a violation; supervisor/worker processes contain aborts", GEN+" vs plan validity predicate; abort containment by process isolation"),
  "C06":("the built path profile is compared point by point with an independent walk of the network's own elevation / heading / catenary points, with count cross-checks, one-shot vs incremental equality, a mirror-image metamorphic relation and rejection of corrupted routes", GEN+" vs reference model + differential (one-shot vs partitions) + metamorphic (mirror)"),
  "C07":("every saved step's six resistance forces, weight, front elevation and front/rear grades are recomputed from an independent walk of the network's own points and from the car list", GEN+" vs reference model (elevation / curve walk)"),
  "C11":("per saved step and at the end, power/energy numbers at train, consist and summed-locomotive level and the annualised trip getters are compared", GEN+" vs cross-level ledger"),
  "C12":("per saved step: time, front/rear position, total distance, front segment and in-segment offset recomputed from speeds and route", GEN+" vs kinematic reference"),
- "C14":("per step: (time,speed)==trace, wheel power == clamp(inertia+resistance) within the published limits, energy advance == power x trace dt; negative entries at generated indices must be rejected", GEN+" vs reference formula"),
+ "C14":("per step: (time,speed)==trace, wheel power == clamp(inertia+resistance) within the published limits, energy advance == power x trace dt; negative entries at generated indices must be rejected; traces that start moving from an initial state at rest included", GEN+" vs reference formula"),
  "C15":("every node, edge and start-to-end walk (exhaustive up to 4096) of the estimated-time net of generated corridor/train pairs is checked for reciprocity, acyclicity, route faithfulness, time bounds along edges and trip time == own shortest walk", GEN+" vs graph validity predicate + own DAG shortest path"),
  "C16":("valid generated networks must be accepted through every advertised entry point and reload equal (legacy layout included); single-fault mutants (46 operators incl. dangling references, NaN, infinity) must come back as Err, never Ok, never an unwind", GEN+" (valid + single-fault mutants) vs rule-list reference; round trip through text and files"),
  "C17":("32 object kinds x 6 save/load routes x {default, generated, mid-run} states: save/load must succeed, a second round trip must return the same object image, and simulations checkpointed at a generated step index and resumed must reproduce the uninterrupted run (exact for YAML/binary, parser-rounding tolerance for JSON)", GEN+" vs round-trip + differential (checkpoint/resume vs uninterrupted run)"),
  "C18":("every scenario kind is run three times on equal inputs (fresh threads, fresh hash keys) and compared value by value; batches of different locomotive simulations are walked serially and in rayon pools of 1-16 workers x 3 repetitions against solo references, with injected failing elements", GEN+" vs differential (repeat / serial vs parallel vs solo)"),
- "C19":("the serialised object tree of every simulation kind is walked generically: all histories equal length == expected count, identical step columns, nested counters == top-level counter, nested save_interval == interval in force", GEN+" vs invariant over the object tree"),
+ "C19":("the serialised object tree of every simulation kind (incl. timed-path walks) is walked generically: all histories equal length == expected count, identical step columns equal to the exact expected step sequence, nested counters == top-level counter, nested save_interval == interval in force", GEN+" vs invariant over the object tree"),
  "C20":("model-based operation sequences on components and locomotives loaded from JSON with all known/unknown/contradictory field combinations; invariant + per-option post-conditions after every call; consist aggregates", GEN+" (operation sequences) vs model of the documented side-effect options"),
  "C13":("two-sided equality with the same brute-force model plus canonical-form invariants", GEN+" vs brute-force reference model"),
 }
@@ -46,7 +46,7 @@ m={
  "version":1,
  "setup_cmd":"cd /verif/harness && CARGO_NET_OFFLINE=true cargo build --offline",
  "hooks":{"guard":"cargo feature verif_hooks (altrios-core)","enable":"harness Cargo.toml depends on altrios-core by path with features=[\"verif_hooks\"]","baseline_off_cmd":"cd /repo/rust && cargo test --workspace --no-fail-fast --offline","source_commits":hooks_commits,"add_only":True},
- "engines":[{"name":"vcheck","path":"/verif/harness","serves_properties":sorted(claimed),"kind_free_text":"Rust binary: proptest-driven choice-tape generation, per-property oracle, shrinking, replay files, supervisor/worker processes for abort containment"}],
+ "engines":[{"name":"vcheck","path":"/verif/harness","serves_properties":sorted(claimed),"kind_free_text":"Rust library + binary: proptest-driven choice-tape generation, per-property oracle, shrinking, replay files, supervisor/worker processes for abort containment; harness/fuzz: one libFuzzer target over the same tape/generator/oracle (tools/fuzz_stage.sh, second stage of every thorough check)"}],
  "checks":checks,
  "notes":"exit 0 held / 1 VIOLATION / 2 INCONCLUSIVE (build failure, watchdog, generator health). Known findings: /verif/known_findings.json (open entries print KNOWN-FINDING and are excluded by exact signature; fixed entries suppress nothing).",
  "not_applicable":na,
